@@ -95,7 +95,33 @@ WholeVerdict ==
     C08_WholeResolves |-> T.written => T.f2.outcome = "ok",
     C08_Whole |-> (T.written /\ T.f2.outcome = "ok") => ReadIso(T.f1, T.f2, T.wit) ]
 
+(* ---------------------------------------------------------------------- *)
+(* C20 at fragment level: a fault inside a fragment definition.           *)
+(* record: [mode |-> "fragfault", coarse, toks, obs |-> [outcome]]        *)
+(* Coarse fragments are read by the graph reader: an unclosed ring index  *)
+(* or a ring bond duplicating an edge is a SyntaxError.  Annotation       *)
+(* faults (two '=', too many positionals, non-numeric weight) raise the   *)
+(* documented error at every level.                                       *)
+(* ---------------------------------------------------------------------- *)
+AnnFaultF(ts) ==
+  LET bad == {i \in DOMAIN ts : ts[i].k = "A" /\ BindError(ts[i].a, AtomDialect) # ""} IN
+  IF bad = {} THEN "" ELSE BindError(ts[CHOOSE i \in bad : \A j \in bad : i <= j].a, AtomDialect)
+FragFaultVerdict ==
+  LET okprefix == PrefixOK(T.toks, T.coarse) /\ \A i \in DOMAIN T.toks : T.toks[i].k = "A" => AnnInDomain(T.toks[i].a, AtomDialect)
+  IN IF ~okprefix THEN [dom |-> FALSE]
+     ELSE LET fs == DenoteF(T.toks, T.coarse)
+              ring == IF fs.err = "dup" THEN "dup" ELSE IF fs.open # {} THEN "dangling" ELSE ""
+              ann == AnnFaultF(T.toks)
+              exp == IF ann # "" THEN "exc:" \o ann
+                     ELSE IF ring # "" /\ T.coarse THEN "exc:SyntaxError" ELSE "ok"
+          IN IF ring # "" /\ ~T.coarse THEN [dom |-> FALSE]     \* ring faults in SMILES are pysmiles' business
+             ELSE [ dom |-> TRUE, expected |-> exp, fault |-> IF ann # "" THEN ann ELSE ring,
+                    C20_Raises |-> (exp # "ok") => T.obs.outcome = exp,
+                    C20_NoGraph |-> (exp # "ok") => T.obs.outcome # "ok",
+                    X_Accepted |-> (exp = "ok") => T.obs.outcome = "ok" ]
+
 Verdict == CASE T.mode = "rt" -> RtVerdict
+             [] T.mode = "fragfault" -> FragFaultVerdict
              [] T.mode = "whole" -> WholeVerdict
              [] OTHER -> StripVerdict
 
